@@ -19,6 +19,9 @@
 //!                                             injection.parent), + all layers, raw matches and the `new` table for the end-to-end model
 //!   C <root> <variant> <names> <crname 0|1> <hex>  the C API (ts_highlighter_* / ts_highlight_buffer_*): html + line
 //!                                             offsets through FFI, rendered again by the Rust API and the model
+//!   S <variant> <step>|<step>|…               a HISTORY over ONE fresh Highlighter; step = <root>:<cancel>:<hex> with cancel =
+//!                                             N (none) | P (flag preset) | K<k> (flag raised after k events); cancelled runs must end
+//!                                             in Cancelled with a well-formed prefix, every completed run gets the full judge + model
 //! Events are written `S<start>-<end>`, `H<highlight>`, `E`, comma separated.
 use std::collections::BTreeMap;
 use std::io::Write;
@@ -246,7 +249,7 @@ fn content_ranges(parent: &[(usize, usize)], nodes: &[Node], include_children: b
     out
 }
 
-fn collect_injections(langs: &[LangDef], variant: usize, li: usize, ranges: &[(usize, usize)], src: &[u8], depth: usize, out: &mut Vec<(usize, Vec<(usize, usize)>)>) {
+fn collect_injections(langs: &[LangDef], variant: usize, li: usize, ranges: &[(usize, usize)], src: &[u8], depth: usize, root: usize, out: &mut Vec<(usize, Vec<(usize, usize)>)>) {
     if depth > 10 || out.len() > 400 {
         return;
     }
@@ -288,6 +291,8 @@ fn collect_injections(langs: &[LangDef], variant: usize, li: usize, ranges: &[(u
         for p in query.property_settings(m.pattern_index) {
             match p.key.as_ref() {
                 "injection.language" if lang_name.is_none() => lang_name = p.value.as_ref().map(|v| v.to_string()),
+                "injection.self" if lang_name.is_none() => lang_name = Some(LANGS[li].to_string()),
+                "injection.parent" if lang_name.is_none() => lang_name = Some(LANGS[root].to_string()),
                 "injection.include-children" => include_children = true,
                 "injection.combined" => is_combined = true,
                 _ => {}
@@ -324,7 +329,7 @@ fn collect_injections(langs: &[LangDef], variant: usize, li: usize, ranges: &[(u
     drop(matches);
     for (ci, r) in found {
         out.push((ci, r.clone()));
-        collect_injections(langs, variant, ci, &r, src, depth + 1, out);
+        collect_injections(langs, variant, ci, &r, src, depth + 1, root, out);
     }
 }
 
@@ -416,6 +421,8 @@ fn local_pairs(ld: &LangDef, src: &[u8]) -> Vec<(usize, usize, usize, usize)> {
 struct World {
     langs: Vec<LangDef>,
     highlighter: Highlighter, // reused across all documents
+    /// when a document is run as a step of a history, the replay spec of its cases is the whole history
+    spec_override: Option<String>,
 }
 
 fn names_of(langs: &[LangDef], variant: usize) -> Vec<String> {
@@ -456,7 +463,7 @@ fn emit_highlight(w: &mut World, out: &mut impl Write, id: &str, root: usize, va
         cfgs.push(cfg);
     }
     let crs = crh.map(|c| c.to_string()).unwrap_or("-".into());
-    watch_begin(format!("H {} {variant} {names_mode} {crs} {}", LANGS[root], hx(src)));
+    watch_begin(w.spec_override.clone().unwrap_or_else(|| format!("H {} {variant} {names_mode} {crs} {}", LANGS[root], hx(src))));
     let mut evs = Vec::new();
     let mut err = None;
     {
@@ -497,7 +504,10 @@ fn emit_highlight(w: &mut World, out: &mut impl Write, id: &str, root: usize, va
             }
         }
     }
-    writeln!(out, "spec {id} H {} {variant} {names_mode} {crs} {}", LANGS[root], hx(src)).unwrap();
+    match &w.spec_override {
+        Some(sp) => writeln!(out, "spec {id} {sp}").unwrap(),
+        None => writeln!(out, "spec {id} H {} {variant} {names_mode} {crs} {}", LANGS[root], hx(src)).unwrap(),
+    }
     writeln!(out, "case {id}\nsrc {}\nevs {}\ncrh {crs}", hx(src), evs_to_string(&evs)).unwrap();
     if let Some(e) = &err {
         writeln!(out, "error {}", e.replace(' ', "_")).unwrap();
@@ -523,7 +533,7 @@ fn emit_highlight(w: &mut World, out: &mut impl Write, id: &str, root: usize, va
         .collect();
     writeln!(out, "langof {}", if langof.is_empty() { "-".into() } else { langof.join(",") }).unwrap();
     let mut injs = Vec::new();
-    collect_injections(&w.langs, variant, root, &[(0, usize::MAX)], src, 0, &mut injs);
+    collect_injections(&w.langs, variant, root, &[(0, usize::MAX)], src, 0, root, &mut injs);
     for (li, rs) in &injs {
         let r: Vec<String> = rs.iter().map(|(s, e)| format!("{s}-{e}")).collect();
         writeln!(out, "inj {} {}", li + 1, r.join(",")).unwrap();
@@ -1162,7 +1172,7 @@ fn emit_full(w: &mut World, out: &mut impl Write, id: &str, root: usize, variant
         cfg.configure(&names);
         cfgs.push(cfg);
     }
-    watch_begin(format!("F {} {variant} {names_mode} {}", LANGS[root], hx(src)));
+    watch_begin(w.spec_override.clone().unwrap_or_else(|| format!("F {} {variant} {names_mode} {}", LANGS[root], hx(src))));
     let mut evs = Vec::new();
     let mut err = None;
     {
@@ -1194,7 +1204,10 @@ fn emit_full(w: &mut World, out: &mut impl Write, id: &str, root: usize, variant
     }
     let rg = |v: &[(usize, usize)]| if v.is_empty() { "-".to_string() } else { v.iter().map(|(s, e)| format!("{s}-{e}")).collect::<Vec<_>>().join(",") };
     let idl = |v: &[usize]| if v.is_empty() { "-".to_string() } else { v.iter().map(|x| x.to_string()).collect::<Vec<_>>().join(",") };
-    writeln!(out, "spec {id} F {} {variant} {names_mode} {}", LANGS[root], hx(src)).unwrap();
+    match &w.spec_override {
+        Some(sp) => writeln!(out, "spec {id} {sp}").unwrap(),
+        None => writeln!(out, "spec {id} F {} {variant} {names_mode} {}", LANGS[root], hx(src)).unwrap(),
+    }
     writeln!(out, "case {id}\nsrc {}\nevs {}", hx(src), evs_to_string(&evs)).unwrap();
     if let Some(e) = &err {
         writeln!(out, "error {}", e.replace(' ', "_")).unwrap();
@@ -1377,6 +1390,130 @@ fn emit_capi(w: &mut World, api: &CApi, out: &mut impl Write, id: &str, root: us
     writeln!(out, "case {id}\nsrc {}\nevs {}\ncrh {crs}", hx(src), evs_to_string(&evs)).unwrap();
     let l: Vec<String> = lines.iter().map(|x| x.to_string()).collect();
     writeln!(out, "html {}\nlines {}\ncapirc {rc}\nrun render", hx(&html), if l.is_empty() { "-".into() } else { l.join(",") }).unwrap();
+}
+
+/// One step of a history.
+#[derive(Clone)]
+struct Step {
+    root: usize,
+    cancel: String, // N | P | K<k>
+    doc: Vec<u8>,
+}
+
+fn history_spec(variant: usize, steps: &[Step]) -> String {
+    let parts: Vec<String> = steps.iter().map(|s| format!("{}:{}:{}", LANGS[s.root], s.cancel, hx(&s.doc))).collect();
+    format!("S {variant} {}", parts.join("|"))
+}
+
+fn parse_history(s: &str) -> Vec<Step> {
+    s.split('|')
+        .filter_map(|p| {
+            let f: Vec<&str> = p.split(':').collect();
+            if f.len() != 3 {
+                return None;
+            }
+            Some(Step { root: lang_index(f[0])?, cancel: f[1].to_string(), doc: unhx(f[2]) })
+        })
+        .collect()
+}
+
+/// Runs a history over ONE fresh Highlighter.  Steps with a cancellation: the run is consumed with the
+/// flag preset / raised after k events; the emitted prefix is judged (`run prefix`).  Steps without:
+/// the document goes through `emit_full` (exact correspondence with the end-to-end model) and
+/// `emit_highlight` (full judge), both with the history's highlighter and the history as replay spec.
+fn emit_history(w: &mut World, out: &mut impl Write, id: &str, variant: usize, steps: &[Step]) {
+    use std::sync::atomic::{AtomicUsize, Ordering};
+    let spec = history_spec(variant, steps);
+    let mut session = Highlighter::new();
+    for (j, st) in steps.iter().enumerate() {
+        if st.cancel == "N" {
+            std::mem::swap(&mut w.highlighter, &mut session);
+            w.spec_override = Some(spec.clone());
+            emit_full(w, out, &format!("{id}.{j}f"), st.root, variant, "all", &st.doc);
+            emit_highlight(w, out, &format!("{id}.{j}h"), st.root, variant, "all", None, &st.doc);
+            w.spec_override = None;
+            std::mem::swap(&mut w.highlighter, &mut session);
+            continue;
+        }
+        let all = names_of(&w.langs, variant);
+        let mut cfgs = Vec::new();
+        for (i, ld) in w.langs.iter().enumerate() {
+            let mut cfg = HighlightConfiguration::new(ld.language.clone(), LANGS[i], &ld.highlights, &ld.inj[variant], &ld.locals).expect("config");
+            cfg.configure(&all);
+            cfgs.push(cfg);
+        }
+        let flag = AtomicUsize::new(if st.cancel == "P" { 1 } else { 0 });
+        let k: usize = st.cancel.trim_start_matches('K').parse().unwrap_or(usize::MAX);
+        watch_begin(spec.clone());
+        let mut evs = Vec::new();
+        let mut outcome = "completed".to_string();
+        {
+            let cfgs_ref = &cfgs;
+            if k == 0 {
+                flag.store(1, Ordering::SeqCst);
+            }
+            match session.highlight(&cfgs[st.root], &st.doc, None, Some(&flag), move |name| lang_index(name).map(|i| &cfgs_ref[i])) {
+                Ok(it) => {
+                    for e in it {
+                        match e {
+                            Ok(e) => {
+                                evs.push(e);
+                                if evs.len() == k {
+                                    flag.store(1, Ordering::SeqCst);
+                                }
+                            }
+                            Err(tree_sitter_highlight::Error::Cancelled) => {
+                                outcome = "cancelled".into();
+                                break;
+                            }
+                            Err(e) => {
+                                outcome = format!("error:{e}").replace(' ', "_");
+                                break;
+                            }
+                        }
+                        if evs.len() > 400_000 {
+                            outcome = "error:too-many-events".into();
+                            break;
+                        }
+                    }
+                }
+                Err(tree_sitter_highlight::Error::Cancelled) => outcome = "cancelled".into(),
+                Err(e) => outcome = format!("error:{e}").replace(' ', "_"),
+            }
+        }
+        watch_end();
+        // a preset flag must stop any document that is large enough for the first poll
+        // K<k>: the flag is polled every 100 iterations of the event loop, so a run that goes on for much
+        // longer after the flag was raised has ignored it (decided by the driver from the event count)
+        let expect = if st.cancel == "P" && st.doc.len() >= 2000 { "cancel".to_string() } else if st.cancel.starts_with('K') { st.cancel.to_lowercase() } else { "any".to_string() };
+        writeln!(out, "spec {id}.{j}p {spec}").unwrap();
+        writeln!(out, "case {id}.{j}p\nsrc {}\nevs {}\noutcome {outcome} {expect}\nrun prefix", hx(&st.doc), evs_to_string(&evs)).unwrap();
+    }
+}
+
+fn gen_doc(gg: &gen::GrammarGen, rng: &mut Rng, root: usize, big: bool) -> Vec<u8> {
+    let mut d = String::new();
+    let reps = if big { rng.range(25, 60) } else { 1 };
+    for _ in 0..reps {
+        match root {
+            0 => d.push_str(&gen_stmt_locals(rng, 2)),
+            1 => d.push_str(&gen_tmpl(gg, rng, 2)),
+            _ => {
+                d.push_str(&gen_host(gg, rng, 2));
+                if big && rng.chance(1, 3) {
+                    // a big injected layer: its parse can be the one that is abandoned
+                    let mut inner = String::new();
+                    for _ in 0..rng.range(40, 90) {
+                        inner.push_str(&gen_stmt_locals(rng, 1));
+                    }
+                    d.push_str(&format!(" $stmt`{}` ", inner.replace('`', "'")));
+                }
+            }
+        }
+    }
+    let mut b = d.into_bytes();
+    b.truncate(12000);
+    b
 }
 
 // ---------------------------------------------------------------------------------------------
@@ -1709,6 +1846,11 @@ fn run_spec(w: &mut World, out: &mut impl Write, id: &str, fields: &[&str]) -> b
             emit_capi(w, &api, out, id, r, v, names, &unhx(s));
             true
         }
+        ["S", variant, hist] => {
+            let steps = parse_history(hist);
+            emit_history(w, out, id, variant.parse().unwrap_or(0), &steps);
+            true
+        }
         ["E", ..] => {
             emit_capi_errors(w, out);
             true
@@ -1747,9 +1889,12 @@ fn main() {
     // A panic while a highlight case is running in the real code is reported with that case's spec
     // (exit code 4, like the watchdog's HANG); panics of the renderer on synthetic ill-formed streams
     // (no case registered) are expected and caught by `real_render`.
-    panic::set_hook(Box::new(|_| {
+    panic::set_hook(Box::new(|info| {
         if let Ok(g) = CURRENT.try_lock() {
             if let Some((_, spec)) = &*g {
+                if let Some(l) = info.location() {
+                    eprintln!("PANIC-AT {}:{}", l.file(), l.line());
+                }
                 eprintln!("PANIC {spec}");
                 std::process::exit(4);
             }
@@ -1759,13 +1904,13 @@ fn main() {
     let args: Vec<String> = std::env::args().collect();
     let out_path = args.get(1).expect("usage: c17 <ops-file> [--spec file]").clone();
     let mut out = std::io::BufWriter::new(std::fs::File::create(&out_path).unwrap());
-    let mut w = World { langs: load_langs(), highlighter: Highlighter::new() };
+    let mut w = World { langs: load_langs(), highlighter: Highlighter::new(), spec_override: None };
     let mut n = 0usize;
     if args.get(2).map(|s| s == "--spec").unwrap_or(false) {
         let specs = std::fs::read_to_string(&args[3]).unwrap();
         for (i, line) in specs.lines().enumerate() {
             let f: Vec<&str> = line.split_whitespace().collect();
-            let f = if !f.is_empty() && !["L", "R", "H", "M", "N", "K", "F", "C", "E"].contains(&f[0]) { &f[1..] } else { &f[..] };
+            let f = if !f.is_empty() && !["L", "R", "H", "M", "N", "K", "F", "C", "E", "S"].contains(&f[0]) { &f[1..] } else { &f[..] };
             if run_spec(&mut w, &mut out, &format!("r{i}"), f) {
                 n += 1;
             }
@@ -2089,6 +2234,35 @@ fn main() {
                 n += 1;
             }
         }
+    }
+    // 6d. HISTORIES over one Highlighter: cancelled runs (flag preset / raised after k events, during the
+    // parse of a big document or of a big injected layer) followed by completed runs on other documents
+    let nhist = if thorough { 400 } else { 60 };
+    for i in 0..nhist {
+        let variant = i % 4;
+        let nsteps = rng.range(2, 5);
+        let mut steps: Vec<Step> = Vec::new();
+        let mut lang = rng.below(3);
+        while steps.len() < nsteps {
+            let cancel = match rng.below(8) {
+                0 | 1 => "P".to_string(),
+                2 | 3 | 4 => format!("K{}", *rng.pick(&[0usize, 1, 3, 20, 99, 100, 101, 250, 600])),
+                _ => "N".to_string(),
+            };
+            if rng.chance(1, 3) {
+                lang = rng.below(3);
+            }
+            let big = cancel != "N" && rng.chance(3, 4);
+            steps.push(Step { root: lang, cancel: cancel.clone(), doc: gen_doc(&stmt_gg, &mut rng, lang, big) });
+            if cancel != "N" {
+                // after a (possibly) cancelled run: a completed run on a different, usually shorter, document,
+                // mostly of the same language
+                let l2 = if rng.chance(3, 4) { lang } else { rng.below(3) };
+                steps.push(Step { root: l2, cancel: "N".into(), doc: gen_doc(&stmt_gg, &mut rng, l2, false) });
+            }
+        }
+        emit_history(&mut w, &mut out, &format!("S{i}"), variant, &steps);
+        n += steps.len();
     }
     // 7. single layer with its locals query: real events vs the locals model
     let nk = if thorough { 3000 } else { 300 };
